@@ -43,7 +43,8 @@ CUBE3 = (np.array([[0.0, -1.0, 0.0], [1.0, 0.0, 0.0], [0.0, 0.0, 1.0]]),
 EVENTS = [['call', 0], ['call', 1], ['call', 2], ['call', 'ref'], ['call_wrong_species'], ['call_target_itself'],
           ['call_ndarray'], ['call_same_name_longer'], ['call_same_name_shorter'],
           ['mut_ref_coords'], ['mut_tgt_coords'], ['mut_arg_coords', 1], ['mut_last_result'],
-          ['respecies_arg', 1]]
+          ['respecies_arg', 1], ['call_list', 'empty'], ['call_list', 'two'], ['mut_tgt_resids'],
+          ['renumber_arg_big', 1]]
 SCALE = 0.5
 
 
@@ -73,6 +74,8 @@ class World:
         for m, conf in enumerate(confs):
             for i, (an, rn, ri) in enumerate(ratoms):
                 rid = ri + 10 * m
+                if m == 3:
+                    rid = ri          # argument 2 carries exactly the residue numbers the TARGET has at construction
                 if pair == 'res2_to_res2same' and m == 2:
                     rid = 33              # argument 1 carries the SAME number on both of its (differently named) residues
                 recs.append((rid, rn, an, i + 1 + nr * m, conf[i]))
@@ -175,7 +178,7 @@ class C04(Check):
             'non-trivial = a call event whose result was compared with a freshly built map')
     technique = ('explicit-state breadth-first search over call/mutation histories on the real ExchangeMap with a '
                  'differential oracle (fresh map built from fresh files) after every transition; de Bruijn histories')
-    level_text = ('every history up to depth 4 (quick) / 5 (thorough) over a 14-event alphabet, on 5 reference/target '
+    level_text = ('every history up to depth 3 (quick; 2 on the three special-purpose pairs) / 4-5 (thorough; 3 on those) over an 18-event alphabet, on 5 reference/target '
                   'pairs x 2 ways of producing arguments (sharing the species topology as System does / independently '
                   'loaded), is executed on the real map and checked after every event; histories of length 101 and 1002 '
                   'containing every ordered pair / triple of events cover the long-history clause')
@@ -194,11 +197,14 @@ class C04(Check):
     def units(self, tier, seed):
         thorough = tier == 'thorough'
         self.bounds = {'depth': 4 if thorough else 3, 'depth_chain4_shared_top': 5 if thorough else 3,
+                       'depth_special_pairs': 3 if thorough else 2,
                        'events': len(EVENTS), 'de_bruijn_orders': [2, 3]}
         u = []
         for pair in PAIRS:
             for mode in self.MODES:
                 depth = self.bounds['depth']
+                if pair not in ('chain4_to_6', 'res3_to_res3'):
+                    depth -= 1            # the three special-purpose pairs one level shallower
                 if pair == 'chain4_to_6' and mode == 'shared_top':
                     depth = self.bounds['depth_chain4_shared_top']
                 if depth >= 5:
@@ -239,7 +245,27 @@ class C04(Check):
         mutated = None
         d = np.array([0.125, -0.25, 0.5])
         try:
-            if name == 'respecies_arg':
+            if name == 'call_list':
+                # a list / tuple is not a molecule, whatever it holds
+                bad = [] if ev[1] == 'empty' else [w.args[0], w.args[2]]
+                for seq in (bad, tuple(bad)):
+                    try:
+                        w.map(seq)
+                        V.append((f'call_list_{ev[1]}/accepted', f'{type(seq).__name__} of {len(seq)} molecules was mapped'))
+                    except TypeError:
+                        pass
+                    except Exception as exc:
+                        V.append((f'call_list_{ev[1]}/rejected-with-other-than-TypeError', repr(exc)))
+            elif name == 'mut_tgt_resids':
+                # the construction TARGET is renumbered after the map was built (a later change to a construction
+                # molecule): results keep carrying the ARGUMENT's residue numbers
+                w.tgt.resids = 7
+            elif name == 'renumber_arg_big':
+                # residue numbers beyond five digits, set on the coordinate side only (the species is untouched)
+                if ev[1] not in getattr(w, 'respecied', ()):
+                    for i, r in enumerate(w.args[ev[1]].residues):
+                        r.resid = 250001 + i
+            elif name == 'respecies_arg':
                 # an argument with its OWN topology is turned into another species through the public API
                 # (molecule name); from then on the map must reject it.  With a shared topology the event is
                 # a no-op (renaming would change the species of the construction reference too)
